@@ -230,7 +230,10 @@ def run_droplet(case, ctx):
     if pre is not None:
         ctx.check("C14.prefilled-kept", got is pre and float(got.times[0]) == -1.5 and len(got.emulsions[0]) == 1, None, tags)
         got = got[1:]
-    lib_eq = bool(got == ref)
+    try:
+        lib_eq = bool(got == ref)
+    except Exception as e:  # noqa  (the library's == may raise when the two sides hold droplets of different classes/layouts)
+        lib_eq = False
     ctx.check("C14.equals-offline", lib_eq and etc_equal(got, ref), {"library_eq": lib_eq, "online": [[float(t), [str(d) for d in e]] for t, e in got.items()][:3], "offline": [[float(t), [str(d) for d in e]] for t, e in ref.items()][:3]}, tags)
     ctx.check("C14.times", [float(t) for t in got.times] == [float(t) for t in times], {"got": list(got.times), "want": times}, tags)
     if any(len(e) for e in ref):
@@ -241,7 +244,11 @@ def run_droplet(case, ctx):
     try:
         back = EmulsionTimeCourse.from_file(path, progress=False)
         ctx.op()
-        ctx.check("C14.file", bool(back == tr_.data) and etc_equal(back, tr_.data), {"n_file": len(back), "n_data": len(tr_.data)}, tags)
+        try:
+            feq = bool(back == tr_.data)
+        except Exception:  # noqa
+            feq = False
+        ctx.check("C14.file", feq and etc_equal(back, tr_.data), {"n_file": len(back), "n_data": len(tr_.data)}, tags)
     except Exception as e:  # noqa
         mixed = any(len({type(d) for d in e}) > 1 for e in tr_.data)
         ctx.check("C14.file", False, {"exc": repr(e)[:300]}, tags)
